@@ -672,7 +672,10 @@ func c13Gen(t *rapid.T) c13Case {
 		Account: rapid.SampledFrom([]string{"", "123456789012"}).Draw(t, "account")}
 	c.LateExit = rapid.IntRange(0, 2).Draw(t, "lateExit") == 0
 	m := newC13Model(c.NExt)
-	evs := [][]string{{"INVOKE"}, {"INVOKE", "SHUTDOWN"}, {"SHUTDOWN"}, {}, {"JUNK"}, {"INVOKE", "JUNK"}}
+	evs := [][]string{{"INVOKE"}, {"INVOKE", "SHUTDOWN"}, {"SHUTDOWN"}, {}, {"JUNK"}, {"INVOKE", "JUNK"},
+		// "only INVOKE and SHUTDOWN": not their near-misses in another letter case or with padding
+		{"invoke"}, {"Invoke", "SHUTDOWN"}, {" INVOKE"}, {"shutdown"},
+		{"INVOKE"}, {"INVOKE", "SHUTDOWN"}, {"SHUTDOWN"}, {}, {"INVOKE"}, {"INVOKE", "SHUTDOWN"}, {"SHUTDOWN"}, {}}
 	n := rapid.IntRange(2, 18).Draw(t, "n")
 	for i := 0; i < n; i++ {
 		var mv c13Move
@@ -739,7 +742,12 @@ func c13Fixed() []c13Case {
 	l := base
 	l.LateExit = true
 	l.Moves = []c13Move{{Who: "e0", Op: "reg", Ev: []string{"INVOKE"}}, {Who: "e1", Op: "reg", Ev: []string{"INVOKE", "SHUTDOWN"}}, {Who: "i0", Op: "reg", Ev: []string{"INVOKE"}}}
-	return []c13Case{a, b, l, {Limit: 9}, {Limit: 10}, {Limit: 11}}
+	// a registration refused for the spelling of an event leaves nothing behind: initialisation completes without it
+	n := base
+	n.Moves = []c13Move{{Who: "e0", Op: "reg", Ev: []string{"invoke"}}, {Who: "e0", Op: "reg", Ev: []string{"INVOKE"}}, {Who: "e1", Op: "reg", Ev: []string{"SHUTDOWN"}},
+		{Who: "i0", Op: "reg", Ev: []string{"invoke"}}, {Who: "i1", Op: "reg", Ev: []string{"INVOKE"}}, {Who: "e0", Op: "next"}, {Who: "e1", Op: "next"}, {Who: "i1", Op: "next"},
+		{Who: "R", Op: "R.next"}, {Who: "P", Op: "INV"}, {Who: "i0", Op: "reg", Ev: []string{"INVOKE"}}}
+	return []c13Case{a, b, l, n, {Limit: 9}, {Limit: 10}, {Limit: 11}}
 }
 
 func TestC13(t *testing.T) {
